@@ -67,6 +67,16 @@ func (dm *DefGenMethod) layout(left int) (w int) {
 	return
 }
 
+// setLeft moves the forms and the documentation, which is not one of the
+// children, to the new left.
+func (dm *DefGenMethod) setLeft(left int) {
+	shift := left - dm.x
+	dm.List.setLeft(left)
+	if dm.doc != nil {
+		dm.doc.setLeft(dm.doc.left() + shift)
+	}
+}
+
 func (dm *DefGenMethod) reorg(edge int) int {
 	if edge < dm.right() {
 		w := 11
